@@ -625,3 +625,39 @@ Section Congruence.
     rewrite H. split; reflexivity.
   Qed.
 End Congruence.
+
+(* ---- the floating-point reading of the last line, for every numeric instance ------------------
+   (added with the repair of recip_sqrt_outcome: nan test first, sign of a zero argument) *)
+Section OutcomeClasses.
+  Context {T : Type} (N : Num T).
+
+  (* a virtual distance that is not equal to itself (binary64: nan) is answered NaN, whatever the
+     other comparisons say *)
+  Lemma recip_sqrt_outcome_nan d : neqb N d d = false -> recip_sqrt_outcome N d = NaN.
+  Proof. intros H. unfold recip_sqrt_outcome. rewrite H. reflexivity. Qed.
+
+  Lemma beamspread_outcome_nan vel legs thetas :
+    (let d := virtual_distance N legs (gamma_list N vel thetas) in neqb N d d = false) ->
+    beamspread_outcome N vel legs thetas = NaN.
+  Proof. cbv zeta. intros H. unfold beamspread_outcome. apply recip_sqrt_outcome_nan. exact H. Qed.
+
+  (* the reading is total and each class is taken under exactly one combination of the tests *)
+  Lemma recip_sqrt_outcome_cases d :
+    (recip_sqrt_outcome N d = NaN <-> (neqb N d d = false \/ nltb N d (n0 N) = true)) /\
+    (recip_sqrt_outcome N d = PlusInf <->
+       (neqb N d d = true /\ nltb N d (n0 N) = false /\ neqb N d (n0 N) = true /\ nltb N (ndiv N (n1 N) d) (n0 N) = false)) /\
+    (recip_sqrt_outcome N d = MinusInf <->
+       (neqb N d d = true /\ nltb N d (n0 N) = false /\ neqb N d (n0 N) = true /\ nltb N (ndiv N (n1 N) d) (n0 N) = true)) /\
+    (forall x, recip_sqrt_outcome N d = Finite x <->
+       (neqb N d d = true /\ nltb N d (n0 N) = false /\ neqb N d (n0 N) = false /\ x = ndiv N (n1 N) (nsqrt N d))).
+  Proof.
+    unfold recip_sqrt_outcome.
+    destruct (neqb N d d), (nltb N d (n0 N)), (neqb N d (n0 N)), (nltb N (ndiv N (n1 N) d) (n0 N)); cbn [negb];
+      (split; [|split; [|split; [|intros x]]]); split; intros H;
+      try discriminate H; try reflexivity; try tauto;
+      try (destruct H as [H | H]; discriminate H);
+      try (destruct H as (H1 & H2 & H3 & H4); first [discriminate H1 | discriminate H2 | discriminate H3 | discriminate H4]);
+      try (injection H as <-; repeat split; reflexivity);
+      try (destruct H as (_ & _ & _ & ->); reflexivity).
+  Qed.
+End OutcomeClasses.
